@@ -588,7 +588,7 @@ class OpInterp(EvalInterp):
 def _op_samples():
     D, DD = Sym('val', 'd1', True, 'datetime'), Sym('val', 'd2', True, 'date')
     F, RX = Sym('val', 'f', True, 'function'), Sym('val', 'rx', True, 'regex')
-    return [('null', None), ('true', True), ('int 2', 2), ('int 0', 0), ('float 2.5', 2.5), ('float -3.0', -3.0), ("'s'", 's'), ("''", ''), ('datetime', D), ('date', DD),
+    return [('null', None), ('true', True), ('int 2', 2), ('int 0', 0), ('int 10**400', 10 ** 400), ('float 2.5', 2.5), ('float -3.0', -3.0), ("'s'", 's'), ("''", ''), ('datetime', D), ('date', DD),
             ('array', [1.0]), ('object', {'a': 1.0}), ('function', F), ('regex', RX)]
 
 
@@ -611,7 +611,10 @@ def expected_binary(op, l, r):
         return ('value', None if isinstance(v, complex) else v)
     if op == '+':
         if _is_num(l) and _is_num(r):
-            return ('value', l + r)
+            try:
+                return ('value', l + r)
+            except OverflowError:
+                return ('value', None)
         if isinstance(l, str) or isinstance(r, str):
             def vs(x):
                 return x if isinstance(x, str) else (Sym('vstr', x) if isinstance(x, Sym) else ref_string(x))
@@ -645,6 +648,8 @@ def operator_table(repo, rule='E6e'):
         expr = build({'binary': {'op': op, 'left': {'variable': 'a'}, 'right': {'variable': 'b'}}})
         for da, a in samples:
             for db, b in samples:
+                if op == '**' and isinstance(b, int) and not isinstance(b, bool) and abs(b) > 10 ** 6 and _is_num(a) and isinstance(a, int):
+                    continue        # an integer power with a 400-digit exponent does not terminate on the host either
                 n += 1
                 it.behaviour, it.truths, it.cmp_operands, it.free_compare = {}, {}, None, False
                 desc = f'{da} {op} {db}'
